@@ -146,3 +146,81 @@ def method_chain(expr):
         e = e["recv"]
     chain.reverse()
     return e, chain
+
+
+def arm_value(arm):
+    """the value an arm evaluates to when it is a plain path/literal/ctor call: ('def', path) | ('lit', v) | None"""
+    from facts import norm, lit_value, call_name
+    e = arm["body"]
+    while e.get("k") in ("BlockExpr", "DropTemps", "Use"):
+        if e.get("k") == "BlockExpr":
+            if e["b"]["stmts"] or "tail" not in e["b"]:
+                return None
+            e = e["b"]["tail"]
+        else:
+            e = e["e"]
+    v = lit_value(e)
+    if v is not None:
+        return ("lit", v)
+    if e.get("k") == "Path" and e.get("def"):
+        return ("def", norm(e["def"]))
+    if e.get("k") == "Call":
+        c = call_name(e)
+        if c:
+            inner = arm_value({"body": e["args"][0]}) if e["args"] else None
+            return ("call", c, inner)
+    return None
+
+
+def variant_table(match):
+    """{variant name: arm} for a match over an enum (or-patterns expanded); '_' for a catch-all arm"""
+    from facts import arm_variants
+    out = {}
+    for arm in match["arms"]:
+        v, catch = arm_variants({"arms": [arm]})
+        for x in v:
+            out.setdefault(x, arm)
+        if catch:
+            out.setdefault("_", arm)
+    return out
+
+
+def recursion_discipline(P, R, rule, fns):
+    """for directly recursive functions with several parameters of one type: every recursive call passes, in position i,
+    something derived from parameter i and from no other same-typed parameter (catches swapped arguments)"""
+    from prov import Prov
+    from facts import call_name, short
+    n = 0
+    for f in fns:
+        if f.kind not in ("Fn", "AssocFn"):
+            continue
+        tys = f.sig_inputs
+        names = [p.get("name") for p in f.params]
+        groups = {}
+        for i, t in enumerate(tys):
+            groups.setdefault(t, []).append(i)
+        same = [g for g in groups.values() if len(g) >= 2]
+        if not same:
+            continue
+        calls = [c for c in f.walk() if c.get("k") in ("Call", "MethodCall") and call_name(c) == f.path]
+        if not calls:
+            continue
+        pv = Prov(f)
+        for ci, c in enumerate(calls):
+            args = ([c["recv"]] if c.get("k") == "MethodCall" else []) + c["args"]
+            if len(args) != len(tys):
+                continue
+            for g in same:
+                for i in g:
+                    if names[i] is None:
+                        continue
+                    a = {x[1] for x in pv.atoms(args[i]) if x[0] == "param"}
+                    others = {names[j] for j in g if j != i and names[j]}
+                    n += 1
+                    ok = names[i] in a and not (a & others)
+                    R.check(rule, "recursion:%s#%d:arg%d" % (short(f.path), ci, i), ok,
+                            "recursive call passes a component of `%s` in position %d" % (names[i], i),
+                            "%s: recursive call #%d passes in position %d (parameter `%s`) a value derived from %s: the arguments "
+                            "of the structural recursion are swapped or mixed" % (f.path, ci, i, names[i], sorted(a) or "neither parameter"),
+                            loc=f.loc())
+    return n
